@@ -33,7 +33,7 @@ def classify(text, cls):
     """narrow classifiers of the known findings; cls in {'abort', 'hang', 'slow', 'panic'}"""
     if cls == 'abort' and pipecorr.nesting_depth(text) >= 20000:
         return 'D08'
-    if cls in ('slow', 'hang') and pipecorr.group_depth(text) >= 16:
+    if cls in ('slow', 'hang') and pipecorr.choice_group_depth(text) >= 16:
         return 'D10'
     return None
 
@@ -46,6 +46,11 @@ def hostile_cases(run):
         out.append(('choice-groups-%d' % d, docgen.nested_groups(d, '|'), 'd'))
         if thorough or d in (8, 16):
             out.append(('seq-groups-%d' % d, docgen.nested_groups(d, ','), 'd'))
+    # sequence groups and singleton groups nested in first position are parsed once per level on this tree
+    # (milliseconds at depth 40): they are NOT part of finding D10 and must stay inside the envelope
+    for d in ([24, 32, 40, 60] if thorough else [24, 40]):
+        out.append(('seq-groups-%d' % d, docgen.nested_groups(d, ','), 'd'))
+        out.append(('singleton-groups-%d' % d, '<!DOCTYPE a [<!ELEMENT a ' + '(' * d + 'a' + ')' * d + '>]><a/>', 'd'))
     for k in (1, 2, 5, 50):
         out.append(('entity-cycle-attr-%d' % k, docgen.entity_cycle(k, 'attr'), 'x'))
         out.append(('entity-cycle-content-%d' % k, docgen.entity_cycle(k, 'content'), 'x'))
